@@ -41,6 +41,7 @@ type Req struct {
 	Scheme       string   `json:"scheme"`
 	Prefix       string   `json:"prefix"`
 	Lines        []Line   `json:"lines"`
+	Pre          []Line   `json:"pre"` // lines in front of the User-Agent line(s)
 }
 
 type Scenario struct {
@@ -174,6 +175,9 @@ func (c *conn) do(st *stack.Stack, sc Scenario, tag string, baseline bool) Obs {
 			}
 		}
 		if !baseline {
+			for _, l := range r.Pre {
+				fields = append(fields, h2raw.HF{spell(l, true), l.V})
+			}
 			for _, u := range r.UA {
 				fields = append(fields, h2raw.HF{"user-agent", u})
 			}
@@ -206,6 +210,9 @@ func (c *conn) do(st *stack.Stack, sc Scenario, tag string, baseline bool) Obs {
 		var b strings.Builder
 		fmt.Fprintf(&b, "%s %s HTTP/1.1\r\nHost: %s\r\nX-Vf-Tag: %s\r\n", method, path, host, tag)
 		if !baseline {
+			for _, l := range r.Pre {
+				fmt.Fprintf(&b, "%s: %s\r\n", spell(l, false), l.V)
+			}
 			for _, u := range r.UA {
 				fmt.Fprintf(&b, "User-Agent: %s\r\n", u)
 			}
